@@ -45,6 +45,7 @@ import XotModel.Lemmas.FfixedRepresentable
 import XotModel.Lemmas.FparseRoute
 import XotModel.Model.FparseRouteSpec
 import XotModel.Lemmas.Fprog2Conv
+import XotModel.Lemmas.Fprog3Conv
 
 namespace XotModel.Props
 open XotModel
@@ -878,6 +879,345 @@ example :
     (Prog2.runImpl { forest := Forest.init } [.base (.create (.element 2)), .base (.create (.text [])), .base (.append 0 1), .unwrap 0]).2 = .err .invalidOperation ∧
     Prog2.runSpec { forest := Forest.init } [.base (.create (.element 2)), .setText 0 ['x']] = none ∧
     (Prog2.runImpl { forest := Forest.init } [.base (.create (.element 2)), .setText 0 ['x']]).2 = .err .invalidOperation := by
+  decide +kernel
+
+end XotModel.Props
+
+/-! # ================================================================================================
+    # CONSTRUCTION PROGRAMS WITH NAVIGATION AND INPUTS (branch wt-prognav)
+    # ================================================================================================
+
+  `Model/FanyorderSpec3.lean` (`Prog3`): the extended programs (`Prog2`, embedded as `Step.old`, run
+  identically: `C20_program3_old`) can only name nodes they created themselves.  A `Prog3` program starts
+  with INPUTS (`State.env` = some nodes of the store it is run in — roots of trees that were there before,
+  e.g. a parsed document, or any other node) and has NAVIGATION steps whose result is a new named node:
+  `child r k` (`children(r).nth(k)`), `parent r`, `attrNode r name` (`attributes(r).get_node(name)`),
+  `nsNode r prefix` (`namespaces(r).get_node(prefix)`), `r` an input or an earlier result — so the inside of
+  a cloned template and of a tree that was in the store before can be edited.  New update steps:
+  `removeAttribute`, `removeNamespace`, `clearAttributes`, `clearNamespaces` (`MutableNodeMap::remove` /
+  `clear`), `nsSetNamespace` (`namespace_node_mut().set_namespace`), `piSetTarget`
+  (`processing_instruction_mut().set_target`; `set_data` is `Prog2.Step.setPiData`).
+
+  The DENOTATION of a program (`Prog3.denote` / `denoteAt`) is a list of pure trees (`Tree`, no node names):
+  the program is run on the ordered-tree specification (C05's, as for `Prog2`; removing an entry =
+  `specRemoveP` of the entry node, the setters = `specSetValue`) and the tree of the ROOT every input /
+  result lies in — or the subtree of one designated result — is read off with `HTree.erase`.  NOT done: a
+  denotation that is computed on `Tree`s alone (no named nodes inside the computation); see `not_proved`. -/
+
+namespace XotModel.Props
+open XotModel
+
+/-- **Refinement along a whole program with navigation**: a program the specification accepts is carried
+    out by the implementation without a refusal — every navigation finds a node — and the implementation's
+    final state IS the specification's (trees, node names, results); `Forest.Inv` holds at the end. -/
+theorem C20_program3_refines (s s' : Prog.State) (P : Prog3.Program) (inv : s.forest.Inv)
+    (hfl : Prog.FlagsOk s.forest) (h : Prog3.runSpec s P = some s') :
+    Prog3.runImpl s P = (s', .ok) ∧ s'.forest.Inv ∧ Prog.FlagsOk s'.forest :=
+  Prog3.run_spec_impl P s s' inv hfl h
+
+/-- One call (navigation resolved): accepted by the specification ⇒ answered `ok`, with the specification's
+    store and result; invariant and flags kept. -/
+theorem C20_program3_call (f f' : Forest) (c : Prog3.Call) (o : Option Nat) (inv : f.Inv) (hfl : Prog.FlagsOk f)
+    (h : c.spec f = some (f', o)) : c.impl f = (f', .ok, o) ∧ f'.Inv ∧ Prog.FlagsOk f' := by
+  obtain ⟨e, i, a, b⟩ := Prog3.call_spec_impl inv hfl h
+  exact ⟨e, i, hfl.of_eq a b⟩
+
+/-- **C20_any_program3**: for ANY store `f` satisfying `Forest.Inv` (and the flag condition), any inputs
+    `ins` and any program with navigation that has a denotation `D` (= the specification accepts every
+    step): the forest model answers `ok` at every step, the final store satisfies the invariant, and the
+    final ROOT TREE of every input and result is the tree the program denotes. -/
+theorem C20_any_program3 (f : Forest) (ins : List Nat) (P : Prog3.Program) (D : List (Option Tree))
+    (hd : Prog3.denote f ins P = some D) (inv : f.Inv) (hfl : Prog.FlagsOk f) :
+    (Prog3.runImpl { forest := f, env := ins } P).2 = .ok ∧
+    (Prog3.runImpl { forest := f, env := ins } P).1.forest.Inv ∧
+    Prog3.rootTrees (Prog3.runImpl { forest := f, env := ins } P).1 = D := by
+  unfold Prog3.denote at hd
+  cases hs : Prog3.runSpec { forest := f, env := ins } P with
+  | none => rw [hs] at hd; cases hd
+  | some s' =>
+    rw [hs] at hd
+    simp only [Option.map_some, Option.some.injEq] at hd
+    obtain ⟨e, i, _⟩ := Prog3.run_spec_impl P _ s' inv hfl hs
+    rw [e]
+    exact ⟨rfl, i, hd⟩
+
+/-- … and for one designated result (the shape of `C20_any_program`): if the program ends in the tree `T`
+    at the result `root` according to the denotation, the model's run is `ok` throughout and that result is
+    the root of a subtree erasing to `T`. -/
+theorem C20_any_program3_at (f : Forest) (ins : List Nat) (P : Prog3.Program) (root : Nat) (T : Tree)
+    (hc : Prog3.Constructs f ins P root T) (inv : f.Inv) (hfl : Prog.FlagsOk f) :
+    (Prog3.runImpl { forest := f, env := ins } P).2 = .ok ∧
+    (Prog3.runImpl { forest := f, env := ins } P).1.forest.Inv ∧
+    ∃ h t, (Prog3.runImpl { forest := f, env := ins } P).1.env[root]? = some h ∧
+      (Prog3.runImpl { forest := f, env := ins } P).1.forest.get? h = some t ∧ t.erase = T ∧
+      (Prog3.runImpl { forest := f, env := ins } P).1.forest.treeAt h = some T := by
+  unfold Prog3.Constructs Prog3.denoteAt at hc
+  cases hs : Prog3.runSpec { forest := f, env := ins } P with
+  | none => rw [hs] at hc; cases hc
+  | some s' =>
+    rw [hs] at hc
+    simp only at hc
+    obtain ⟨e, i, _⟩ := Prog3.run_spec_impl P _ s' inv hfl hs
+    rw [e]
+    refine ⟨rfl, i, ?_⟩
+    cases he : s'.env[root]? with
+    | none => rw [he] at hc; cases hc
+    | some h =>
+      rw [he] at hc
+      simp only at hc
+      have hc' := hc
+      unfold Forest.treeAt at hc'
+      cases hg : s'.forest.get? h with
+      | none => rw [hg] at hc'; cases hc'
+      | some t =>
+        rw [hg] at hc'
+        exact ⟨h, t, rfl, hg, Option.some.inj hc', hc⟩
+
+/-- **C20_programs3_agree**: two programs with the same denotation at their designated results — run in
+    the same store or in two different stores, with different inputs, one building top-down from nothing,
+    one editing a parsed document in place through navigation, one going bottom-up through clones — are both
+    carried out, and the two results carry the same tree: `deep_equal`, same declarations, and for any
+    observation `obs` of the erased tree (the serialiser) the same answer. -/
+theorem C20_programs3_agree {α : Type} (obs : Tree → α) (f1 f2 : Forest) (ins1 ins2 : List Nat)
+    (P1 P2 : Prog3.Program) (r1 r2 : Nat) (T : Tree)
+    (h1 : Prog3.Constructs f1 ins1 P1 r1 T) (h2 : Prog3.Constructs f2 ins2 P2 r2 T)
+    (inv1 : f1.Inv) (hfl1 : Prog.FlagsOk f1) (inv2 : f2.Inv) (hfl2 : Prog.FlagsOk f2) :
+    (Prog3.runImpl { forest := f1, env := ins1 } P1).2 = .ok ∧
+    (Prog3.runImpl { forest := f2, env := ins2 } P2).2 = .ok ∧
+    ∃ a b, (Prog3.runImpl { forest := f1, env := ins1 } P1).1.env[r1]? = some a ∧
+      (Prog3.runImpl { forest := f2, env := ins2 } P2).1.env[r2]? = some b ∧
+      (Prog3.runImpl { forest := f1, env := ins1 } P1).1.forest.treeAt a = some T ∧
+      (Prog3.runImpl { forest := f2, env := ins2 } P2).1.forest.treeAt b =
+        (Prog3.runImpl { forest := f1, env := ins1 } P1).1.forest.treeAt a ∧
+      ((Prog3.runImpl { forest := f1, env := ins1 } P1).1.forest.treeAt a).map obs =
+        ((Prog3.runImpl { forest := f2, env := ins2 } P2).1.forest.treeAt b).map obs := by
+  obtain ⟨o1, _, a, _, ea, _, _, ta⟩ := C20_any_program3_at f1 ins1 P1 r1 T h1 inv1 hfl1
+  obtain ⟨o2, _, b, _, eb, _, _, tb⟩ := C20_any_program3_at f2 ins2 P2 r2 T h2 inv2 hfl2
+  exact ⟨o1, o2, a, b, ea, eb, ta, by rw [tb, ta], by rw [ta, tb]⟩
+
+/-- … for ALL inputs and results at once: equal denotations give equal lists of final root trees. -/
+theorem C20_programs3_agree_all (f1 f2 : Forest) (ins1 ins2 : List Nat) (P1 P2 : Prog3.Program)
+    (D : List (Option Tree)) (h1 : Prog3.denote f1 ins1 P1 = some D) (h2 : Prog3.denote f2 ins2 P2 = some D)
+    (inv1 : f1.Inv) (hfl1 : Prog.FlagsOk f1) (inv2 : f2.Inv) (hfl2 : Prog.FlagsOk f2) :
+    (Prog3.runImpl { forest := f1, env := ins1 } P1).2 = .ok ∧
+    (Prog3.runImpl { forest := f2, env := ins2 } P2).2 = .ok ∧
+    Prog3.rootTrees (Prog3.runImpl { forest := f1, env := ins1 } P1).1 =
+      Prog3.rootTrees (Prog3.runImpl { forest := f2, env := ins2 } P2).1 := by
+  obtain ⟨o1, _, t1⟩ := C20_any_program3 f1 ins1 P1 D h1 inv1 hfl1
+  obtain ⟨o2, _, t2⟩ := C20_any_program3 f2 ins2 P2 D h2 inv2 hfl2
+  exact ⟨o1, o2, by rw [t1, t2]⟩
+
+/-- A well-formed program has no refused and no ill-formed step (`firstRefused = firstIllFormed = none`). -/
+theorem C20_program3_no_refusal (s s' : Prog.State) (P : Prog3.Program) (inv : s.forest.Inv)
+    (hfl : Prog.FlagsOk s.forest) (h : Prog3.runSpec s P = some s') :
+    Prog3.firstRefused s P = none ∧ Prog3.firstIllFormed s P = none :=
+  Prog3.firstRefused_none P s s' inv hfl h
+
+/-- **Conversely**: a program with navigation every step of which the implementation answers `ok` — in
+    particular every navigation found a node — is accepted by the specification, with the same final state
+    (then `C20_program3_refines` / `C20_any_program3` apply).  `Prog3.inScope`: what `Prog2.inScope` excludes
+    (none of the new steps). -/
+theorem C20_any_program3_conv (s : Prog.State) (P : Prog3.Program) (inv : s.forest.Inv)
+    (hfl : Prog.FlagsOk s.forest) (hsc : Prog3.inScope s P = true) (hok : (Prog3.runImpl s P).2 = .ok) :
+    Prog3.runSpec s P = some (Prog3.runImpl s P).1 :=
+  Prog3.run_impl_spec P s inv hfl hsc hok
+
+/-- … so an `ok` run HAS a denotation, and it is what the model's final store shows. -/
+theorem C20_program3_ok_denotes (f : Forest) (ins : List Nat) (P : Prog3.Program) (inv : f.Inv)
+    (hfl : Prog.FlagsOk f) (hsc : Prog3.inScope { forest := f, env := ins } P = true)
+    (hok : (Prog3.runImpl { forest := f, env := ins } P).2 = .ok) :
+    Prog3.denote f ins P = some (Prog3.rootTrees (Prog3.runImpl { forest := f, env := ins } P).1) := by
+  unfold Prog3.denote
+  rw [C20_any_program3_conv _ P inv hfl hsc hok]
+  rfl
+
+/-- **Refusals are exact** for programs with navigation: the first step the implementation does not answer
+    `ok` — a failed navigation included — is the first step the specification calls ill-formed. -/
+theorem C20_program3_refusal_exact (s : Prog.State) (P : Prog3.Program) (inv : s.forest.Inv)
+    (hfl : Prog.FlagsOk s.forest) (hsc : Prog3.inScope s P = true) :
+    Prog3.firstRefused s P = Prog3.firstIllFormed s P :=
+  Prog3.firstRefused_eq P s inv hfl hsc
+
+/-- Per call, acceptance by the specification is EXACTLY the model's outcome `ok` (navigation resolved; for
+    the new calls `Prog3.Call.inScope` is `true`): `remove(key)` and `clear()` are well-formed on elements
+    and nowhere else — the entry nodes `clear()` collected are all still there when their turn comes
+    (`Prog3.clear_accepted`) —, `set_namespace` on namespace nodes, `set_target` on processing instructions. -/
+theorem C20_program3_call_exact (f : Forest) (c : Prog3.Call) (inv : f.Inv) (hfl : Prog.FlagsOk f)
+    (hs : c.inScope f = true) : (c.spec f).isSome = true ↔ (c.impl f).2.1 = .ok := by
+  constructor
+  · intro h
+    cases hc : c.spec f with
+    | none => rw [hc] at h; cases h
+    | some fo =>
+      obtain ⟨f', o⟩ := fo
+      rw [(Prog3.call_spec_impl inv hfl hc).1]
+  · intro h
+    cases hi : c.impl f with
+    | mk f' ro =>
+      obtain ⟨r, o⟩ := ro
+      rw [hi] at h
+      simp only at h
+      subst h
+      obtain ⟨g, o', hsp⟩ := Prog3.spec_of_ok inv hfl c hs hi
+      rw [hsp]; rfl
+
+theorem C20_program3_clear_exact (f : Forest) (inv : f.Inv) (hfl : Prog.FlagsOk f) (k : Forest.MapKind) (e : Nat) :
+    ((Prog3.Call.mapClear k e).spec f).isSome = f.isElement e :=
+  Prog3.mapClear_spec_isSome inv hfl k e
+
+/-- The extension is conservative: an extended program (`Prog2`) runs identically as a `Prog3` program … -/
+theorem C20_program3_old (s : Prog.State) (P : Prog2.Program) :
+    Prog3.runSpec s (Prog3.ofOld P) = Prog2.runSpec s P ∧ Prog3.runImpl s (Prog3.ofOld P) = Prog2.runImpl s P :=
+  Prog3.run_old s P
+
+/-- … and every `Prog2.Constructs` construction of an abstract document `d` is a `Prog3` construction of
+    `treeOf d` (no inputs). -/
+theorem C20_program3_old_constructs (f : Forest) (P : Prog2.Program) (root : Nat) (d : FDocument)
+    (h : Prog2.Constructs f P root d) : Prog3.Constructs f [] (Prog3.ofOld P) root (treeOf d) := by
+  obtain ⟨s', hs, x, hx, ht⟩ := h
+  unfold Prog3.Constructs Prog3.denoteAt
+  rw [(C20_program3_old _ P).1, hs]
+  simp only [hx, ht]
+
+/-- Navigation is a READ of the current store: what the steps resolve to. -/
+theorem C20_program3_navigation (f : Forest) (env : List Nat) (r h : Nat) (hr : env[r]? = some h) :
+    (∀ k, (Prog3.Step.child r k).resolve f env =
+      ((((f.kidsOf h).filter (fun c => c.value.isNormal))[k]?).map (fun c => Prog3.Call.found c.handle))) ∧
+    ((Prog3.Step.parent r).resolve f env = (f.parent? h).map Prog3.Call.found) ∧
+    (∀ a, (Prog3.Step.attrNode r a).resolve f env =
+      (f.mapGetNode .attributes h a).map (fun c => Prog3.Call.found c.handle)) ∧
+    (∀ p, (Prog3.Step.nsNode r p).resolve f env =
+      (f.mapGetNode .namespaces h p).map (fun c => Prog3.Call.found c.handle)) := by
+  refine ⟨fun k => ?_, ?_, fun a => ?_, fun p => ?_⟩
+  · simp only [Prog3.Step.resolve, Prog3.nav, hr, Prog3.childOf]
+    cases ((f.kidsOf h).filter (fun c => c.value.isNormal))[k]? <;> rfl
+  · simp only [Prog3.Step.resolve, Prog3.nav, hr, Prog3.parentOf]
+    cases f.parent? h <;> rfl
+  · simp only [Prog3.Step.resolve, Prog3.nav, hr, Prog3.entryNodeOf]
+    cases f.mapGetNode .attributes h a <;> rfl
+  · simp only [Prog3.Step.resolve, Prog3.nav, hr, Prog3.entryNodeOf]
+    cases f.mapGetNode .namespaces h p <;> rfl
+
+/-- **NOT PROVED — the full-strength, handle-free reading of the denotation.**  `Prog3.denote` is computed on
+    the ordered-tree specification, whose nodes carry names; that the result does not depend on the names —
+    two stores holding the same pure trees, with the inputs at the same places (`Prog3.SameUpToNames`), give
+    the same denotation for every program — is what would make `denote` a function of `Tree`s and paths
+    alone.  It needs the invariance of every specification function (`specMoveP`, `specRemoveP`,
+    `specReplaceP`, `specUnwrapP`, `specWrap`, `specClone`, …) under renaming of handles; a closed instance
+    is checked below (`storeN` against a renamed copy). -/
+def C20_program3_handle_free_Statement : Prop :=
+  ∀ (f1 f2 : Forest) (ins1 ins2 : List Nat) (P : Prog3.Program), f1.Inv → f2.Inv → Prog.FlagsOk f1 →
+    Prog3.SameUpToNames f1 ins1 f2 ins2 → Prog3.denote f1 ins1 P = Prog3.denote f2 ins2 P
+
+/-! ### Non-vacuity: `docC` = `<!--l--><a c="v">x<b/>yz</a>` once more, by EDITING A DOCUMENT IN PLACE
+
+  The store `storeN` holds a document `<a xmlns:p="…" c="o" d="w">x<g>q</g><?t d?></a>` (as a parse would
+  have left it) and a template `<T><b/>yz</T>`.  `progN` gets the document node and the template as inputs,
+  navigates to the document element, its namespace node (`set_namespace`, then `clear`), its attribute
+  node `c` (`set_value`), removes the attribute `d`, navigates to `<g>` and its text (removed), renames
+  `<g>`, navigates to the PI (`set_target`), goes back up with `parent`, clones the template, navigates INTO
+  THE COPY to the text `yz`, replaces the PI by it, removes the rest of the copy, and inserts a new comment
+  before the document element. -/
+
+def storeN : Forest :=
+  { roots := [.node 0 .document [.node 1 (.element 2) [.node 2 (.namespace 2 3) [], .node 3 (.attribute 4 ['o']) [],
+                .node 4 (.attribute 5 ['w']) [], .node 5 (.text ['x']) [],
+                .node 6 (.element 7) [.node 7 (.text ['q']) []], .node 8 (.pi 17 (some ['d'])) []]],
+              .node 9 (.element 9) [.node 10 (.element 3) [], .node 11 (.text ['y', 'z']) []]],
+    next := 12 }
+
+def progN : Prog3.Program :=
+  [.child 0 0,                              -- 2: <a>
+   .nsNode 2 2,                             -- 3: xmlns:p
+   .nsSetNamespace 3 5,
+   .clearNamespaces 2,
+   .removeNamespace 2 2,                    -- nothing left to remove
+   .attrNode 2 4,                           -- 4: c="o"
+   .old (.setAttributeValue 4 ['v']),
+   .removeAttribute 2 5,
+   .child 2 1,                              -- 5: <g>
+   .child 5 0,                              -- 6: q
+   .old (.remove 6),
+   .old (.setElementName 5 3),
+   .child 2 2,                              -- 7: <?t d?>
+   .piSetTarget 7 18,
+   .parent 7,                               -- 8: <a> again
+   .old (.clone 1),                         -- 9: copy of <T>
+   .child 9 1,                              -- 10: yz inside the copy
+   .old (.replace 7 10),
+   .old (.remove 9),
+   .old (.base (.create (.comment ['l']))), -- 11
+   .old (.base (.insertBefore 8 11))]
+
+theorem C20_storeN_inv : storeN.Inv ∧ Prog.FlagsOk storeN :=
+  ⟨(Forest.inv_iff _).mp (by decide), Or.inl rfl⟩
+
+/-- The editing program, the embedded eight-step program `progC` and the embedded extended program `progX`
+    (both run next to the old trees, no inputs) denote the same tree `treeOf docC`. -/
+theorem C20_progN_constructs :
+    Prog3.Constructs storeN [0, 9] progN 0 (treeOf docC) ∧
+    Prog3.Constructs storeN [] (Prog3.ofOld (Prog2.ofBase progC)) 6 (treeOf docC) ∧
+    Prog3.Constructs Forest.init [] (Prog3.ofOld progX) 8 (treeOf docC) := by
+  unfold Prog3.Constructs
+  decide +kernel
+
+/-- `C20_programs3_agree` applied: editing in place (in `storeN`) and building from nothing (in the empty
+    store) give the same tree. -/
+example : ∃ a b, (Prog3.runImpl { forest := storeN, env := [0, 9] } progN).1.env[0]? = some a ∧
+    (Prog3.runImpl { forest := Forest.init, env := [] } (Prog3.ofOld progX)).1.env[8]? = some b ∧
+    (Prog3.runImpl { forest := Forest.init, env := [] } (Prog3.ofOld progX)).1.forest.treeAt b =
+      (Prog3.runImpl { forest := storeN, env := [0, 9] } progN).1.forest.treeAt a := by
+  obtain ⟨_, _, a, b, ea, eb, _, e, _⟩ := C20_programs3_agree id storeN Forest.init [0, 9] [] progN (Prog3.ofOld progX) 0 8
+    (treeOf docC) C20_progN_constructs.1 C20_progN_constructs.2.2 C20_storeN_inv.1 C20_storeN_inv.2
+    C20_init_inv.1 C20_init_inv.2
+  exact ⟨a, b, ea, eb, e⟩
+
+/-- The whole denotation of `progN`: the document and all nodes navigated to inside it lie in the root tree
+    `treeOf docC`; the template is untouched; removed nodes have no tree. -/
+example :
+    Prog3.denote storeN [0, 9] progN =
+      some [some (treeOf docC), some (.node (.element 9) [.node (.element 3) [], .node (.text ['y', 'z']) []]),
+            some (treeOf docC), none, some (treeOf docC), some (treeOf docC), none, none, some (treeOf docC),
+            none, some (treeOf docC), some (treeOf docC)] ∧
+    (Prog3.runImpl { forest := storeN, env := [0, 9] } progN).2 = .ok ∧
+    Prog3.firstRefused { forest := storeN, env := [0, 9] } progN = none ∧
+    Prog3.inScope { forest := storeN, env := [0, 9] } progN = true := by
+  decide +kernel
+
+/-- `storeN` with every node renamed (and another `next`): the same pure trees, the inputs at the same
+    places — and `progN` has the same denotation (an instance of `C20_program3_handle_free_Statement`). -/
+def storeN' : Forest :=
+  { roots := [.node 40 .document [.node 7 (.element 2) [.node 31 (.namespace 2 3) [], .node 2 (.attribute 4 ['o']) [],
+                .node 19 (.attribute 5 ['w']) [], .node 0 (.text ['x']) [],
+                .node 12 (.element 7) [.node 11 (.text ['q']) []], .node 3 (.pi 17 (some ['d'])) []]],
+              .node 25 (.element 9) [.node 5 (.element 3) [], .node 33 (.text ['y', 'z']) []]],
+    next := 57 }
+
+example : storeN'.inv = true ∧ Prog3.denote storeN' [40, 25] progN = Prog3.denote storeN [0, 9] progN ∧
+    Prog3.denoteAt storeN' [40, 25] progN 0 = some (treeOf docC) := by
+  decide +kernel
+
+example : Prog3.SameUpToNames storeN [0, 9] storeN' [40, 25] :=
+  ⟨by decide, rfl, rfl, by decide, by decide⟩
+
+/-- Ill-formed programs are refused where the specification rejects them: a navigation that finds nothing
+    (`children(a).nth(3)`, the parent of a root, a missing attribute / prefix) is `unwrap()` of `None`;
+    `set_namespace` on an attribute node and `set_target` on a comment are `InvalidOperation`; `clear` of
+    the attributes of a document node panics. -/
+example :
+    Prog3.runSpec { forest := storeN, env := [0, 9] } [.child 0 0, .child 2 3] = none ∧
+    (Prog3.runImpl { forest := storeN, env := [0, 9] } [.child 0 0, .child 2 3]).2 = .panic ∧
+    Prog3.firstRefused { forest := storeN, env := [0, 9] } [.child 0 0, .child 2 3] = some 1 ∧
+    Prog3.firstIllFormed { forest := storeN, env := [0, 9] } [.child 0 0, .child 2 3] = some 1 ∧
+    Prog3.runSpec { forest := storeN, env := [0, 9] } [.parent 1] = none ∧
+    (Prog3.runImpl { forest := storeN, env := [0, 9] } [.parent 1]).2 = .panic ∧
+    Prog3.runSpec { forest := storeN, env := [0, 9] } [.child 0 0, .attrNode 2 7] = none ∧
+    Prog3.runSpec { forest := storeN, env := [0, 9] } [.child 0 0, .nsNode 2 0] = none ∧
+    Prog3.runSpec { forest := storeN, env := [0, 9] } [.child 0 0, .attrNode 2 4, .nsSetNamespace 3 2] = none ∧
+    (Prog3.runImpl { forest := storeN, env := [0, 9] } [.child 0 0, .attrNode 2 4, .nsSetNamespace 3 2]).2 =
+      .err .invalidOperation ∧
+    Prog3.runSpec { forest := storeN, env := [0, 9] } [.clearAttributes 0] = none ∧
+    (Prog3.runImpl { forest := storeN, env := [0, 9] } [.clearAttributes 0]).2 = .panic := by
   decide +kernel
 
 end XotModel.Props
